@@ -231,6 +231,7 @@ func NewResolver(URL string) (*Resolver, error) {
 // needed to establish a secure and private TLS connection using ECH.
 type Resolver struct {
 	baseURL url.URL
+	mu      sync.RWMutex // protects the cache field
 	cache   *lru.TwoQueueCache[cacheKey, *cacheValue]
 
 	insecureUseGoResolver bool
@@ -239,6 +240,8 @@ type Resolver struct {
 // SetCacheSize sets the size of the DNS cache. The default size is 32. A zero
 // or negative value disables caching.
 func (r *Resolver) SetCacheSize(n int) {
+	r.mu.Lock()
+	defer r.mu.Unlock()
 	if n <= 0 {
 		r.cache = nil
 		return
@@ -502,7 +505,9 @@ func (r *Resolver) resolveTarget(ctx context.Context, name string, res *ResolveR
 }
 
 func (r *Resolver) resolveOne(ctx context.Context, name, typ string) ([]any, error) {
+	r.mu.RLock()
 	cache := r.cache
+	r.mu.RUnlock()
 	if cache == nil {
 		v, _, err := r.resolveOneNoCache(ctx, name, typ)
 		return v, err
